@@ -134,13 +134,15 @@ Definition enc_seen (f : wentry -> list item) (g : wentry -> group) (e : wentry)
   L [L (map enc_item (f e)); enc_dims (g e)].
 
 (* case: (0 entry)  -> (items group)
-         (1 stream entry) -> ((id items group) ...) in delivery order *)
+         (1 stream entry) -> (result ((id items group) ...)) deliveries in order; result = () or (failing terminal) *)
 Definition run_with (f : wentry -> list item) (g : wentry -> group)
                     (dl : wstream -> wentry -> list (N * wentry)) (x : sx) : sx :=
   match sx_tag x with
   | 0%Z => enc_seen f g (dec_entry FUEL (sx_arg x 0))
-  | _ => L (map (fun p : N * wentry => L [of_n (fst p); enc_seen f g (snd p)])
-                (dl (dec_stream FUEL (sx_arg x 0)) (dec_entry FUEL (sx_arg x 1))))
+  | _ => let s := dec_stream FUEL (sx_arg x 0) in
+         L [of_option of_n (sresult s);
+            L (map (fun p : N * wentry => L [of_n (fst p); enc_seen f g (snd p)])
+                   (dl s (dec_entry FUEL (sx_arg x 1))))]
   end.
 
 (* mechanism *)
